@@ -575,3 +575,135 @@ def resolved_src(fi, e, depth=0):
             return node
     import copy
     return src(T().visit(copy.deepcopy(e)))
+
+
+# ----------------------------------------------------------------------
+# stale memo: a method that returns a stored result under a validity key which does not determine what the
+# computation reads
+_BY_VALUE = ("tuple", "frozenset", "str", "repr", "sorted", "list", "dict", "hash")
+
+
+def memo_findings(p, res, fi):
+    """[(node, text)] for every memoised return of fi whose validity key can stay equal while the state the
+    computation reads changes.  Sound cases accepted: the key takes the state by value (tuple(self.A), …); the key takes
+    len(self.A) and A only ever grows (every other mutator of A also resets the memo); the key is a version attribute
+    that every mutator of A also bumps.  Attributes never written after construction are configuration."""
+    ci = fi.cls
+    if ci is None:
+        return []
+    out = []
+    stored = {}
+    for n in walk_no_nested(fi.node):
+        if isinstance(n, (ast.Assign, ast.AnnAssign)):
+            for t in (n.targets if isinstance(n, ast.Assign) else [n.target]):
+                if is_self_attr(t) and n.value is not None and not (isinstance(n.value, ast.Constant) and n.value.value is None):
+                    stored.setdefault(t.attr, []).append(n)
+    for n in walk_no_nested(fi.node):
+        if not isinstance(n, ast.If):
+            continue
+        memo_attrs = [a for a in stored if any(is_self_attr(x, a) for x in ast.walk(n.test))]
+        if not memo_attrs:
+            continue
+        rets = [r for st in n.body for r in ast.walk(st) if isinstance(r, ast.Return) and r.value is not None]
+        for M in memo_attrs:
+            if not any(any(is_self_attr(x, M) for x in ast.walk(r.value)) for r in rets):
+                continue
+            # the key: the side of an ==/is comparison in the test that does not mention the memo
+            keys = []
+            for c in ast.walk(n.test):
+                if isinstance(c, ast.Compare) and len(c.ops) == 1 and isinstance(c.ops[0], (ast.Eq, ast.Is)):
+                    sides = [c.left, c.comparators[0]]
+                    km = [s_ for s_ in sides if not any(is_self_attr(x, M) for x in ast.walk(s_))]
+                    if len(km) == 1:
+                        keys.append(km[0])
+            kexprs = []
+            for k in keys:
+                if isinstance(k, ast.Name):
+                    defs = [a.value for a in walk_no_nested(fi.node) if isinstance(a, ast.Assign) and len(a.targets) == 1 and isinstance(a.targets[0], ast.Name) and a.targets[0].id == k.id]
+                    kexprs.extend(defs or [k])
+                else:
+                    kexprs.append(k)
+            # what the memoised computation reads: self attributes used after the guard (and in same-class callees)
+            reads = set()
+            after = False
+            for st in ast.walk(fi.node):
+                pass
+            body_after = _statements_after(fi.node, n)
+            fns = [body_after]
+            for st in body_after:
+                for c in ast.walk(st):
+                    if isinstance(c, ast.Call):
+                        for g in res.resolve_call(fi, c):
+                            if g.cls is ci and g is not fi:
+                                fns.append(g.node.body)
+            for body in fns:
+                for st in body:
+                    for x in ast.walk(st):
+                        if is_self_attr(x) and x.attr != M and isinstance(x.ctx, ast.Load) and x.attr not in ci.methods:
+                            reads.add(x.attr)
+            for A in sorted(reads):
+                writes = [(g, k, w) for g, k, w in package_attr_writes(p, A, None) if not (g.cls is ci and g.name in ("__init__", "__post_init__")) and (g.cls is ci or res.expr_class(g, _write_base(w, A)) is ci or g.cls is None)]
+                writes = [(g, k, w) for g, k, w in writes if g.cls is ci]
+                if not writes:
+                    continue        # configuration: never written after construction
+                by_value = any(isinstance(c, ast.Call) and isinstance(c.func, ast.Name) and c.func.id in _BY_VALUE and any(is_self_attr(x, A) for a_ in c.args for x in ast.walk(a_)) for k in kexprs for c in ast.walk(k))
+                if by_value:
+                    continue
+                by_len = any(isinstance(c, ast.Call) and isinstance(c.func, ast.Name) and c.func.id == "len" and c.args and is_self_attr(c.args[0], A) for k in kexprs for c in ast.walk(k))
+                versions = [x.attr for k in kexprs for x in ast.walk(k) if is_self_attr(x) and x.attr != A and not any(isinstance(c, ast.Call) and isinstance(c.func, ast.Name) and c.func.id == "len" and c.args and c.args[0] is x for c in ast.walk(k))]
+
+                def resets_memo(g):
+                    return any(k_ in ("assign", "del") for k_, _ in attr_writes(g.node, M, "self"))
+
+                def bumps(g, V):
+                    return any(k_ in ("augassign", "assign") for k_, _ in attr_writes(g.node, V, "self"))
+                bad = []
+                for g, k, w in writes:
+                    if resets_memo(g):
+                        continue
+                    if any(bumps(g, V) for V in versions):
+                        continue
+                    if by_len and k in ("mutcall:append", "mutcall:extend", "mutcall:add", "mutcall:update"):
+                        # growth changes len — unless the same function also shrinks A (a sliding window)
+                        shrinks = any(k2 not in ("mutcall:append", "mutcall:extend", "mutcall:add", "mutcall:update") for k2, _ in attr_writes(g.node, A, "self"))
+                        if not shrinks:
+                            continue
+                    bad.append((g, k, w))
+                if bad:
+                    g, k, w = bad[0]
+                    out.append((n, f"`{short(n.test, 70)}` returns the stored self.{M}, but the computation reads self.{A}, which {g.qual} changes (`{short(w, 50)}`) without changing the key "
+                                   f"({', '.join(short(k_, 40) for k_ in kexprs) or 'no key'}) or resetting the memo: the stored result goes stale"))
+                    break
+    return out
+
+
+def _write_base(w, attr):
+    for x in ast.walk(w):
+        if isinstance(x, ast.Attribute) and x.attr == attr:
+            return x.value
+    return None
+
+
+def _statements_after(fn, node):
+    """statements of fn (flattened by blocks) that follow `node` in its own block and in the enclosing ones"""
+    out = []
+
+    def visit(body):
+        found = False
+        for i, st in enumerate(body):
+            if st is node:
+                out.extend(body[i + 1:])
+                return True
+            for fld in ("body", "orelse", "finalbody"):
+                b = getattr(st, fld, None)
+                if isinstance(b, list) and b and isinstance(b[0], ast.AST) and visit(b):
+                    out.extend(body[i + 1:])
+                    return True
+            if isinstance(st, ast.Try):
+                for h in st.handlers:
+                    if visit(h.body):
+                        out.extend(body[i + 1:])
+                        return True
+        return found
+    visit(fn.body)
+    return out
